@@ -106,6 +106,10 @@ def run_real(case):
                 d = PartHandler(nm, upstream=[up], cycle_time=k[1])
             elif k[0] == 'P':
                 d = PartProcessor(nm, upstream=[up], cycle_time=k[1])
+            elif k[0] in ('HS', 'PS'):
+                # constructed with another value, then configured through the documented setter before the first run
+                d = (PartHandler if k[0] == 'HS' else PartProcessor)(nm, upstream=[up], cycle_time=7)
+                d.cycle_time = k[1]
             elif k[0] in ('HU', 'PU'):
                 d = (RateHandler if k[0] == 'HU' else RateProcessor)(nm, upstream=[up])
                 d.seconds = k[1]
